@@ -81,6 +81,14 @@ def multisets() -> List[Tuple[str, ...]]:
                 l2 = f"[{sk(c, start=s2)}, {sk(1, vb, start=s3)}]"
                 l3 = f"[{sk(c, start=s2)}]"
                 out += [(l1, l2), (l1, l3), (f"[{l1}, {l2}]",), (f"[{l1}, {l3}]",), (f"({l1},)", f"({l2},)"), (l1, l3, f"[{sk(1, start=s3 + 3)}]")]
+    # k+2 and more traces: a key that some traces lack (optional), whose values are small dicts with a different key in every
+    # trace - the nested merge under the optional key has more members than the limit allows keys
+    for n in (3, 4, 5, 6):
+        inner = [f"{{'k{j}': 0}}" for j in range(n)]
+        out.append(tuple(f"{{'p': {d}}}" for d in inner) + ("{'q': 0}",))
+        out.append(tuple(f"{{'p': {d}, 'r': 0}}" for d in inner) + ("{'r': 0}",))
+        out.append(tuple(f"[{{'p': {d}}}]" for d in inner) + ("[{'q': 0}]",))
+        out.append((("[" + ", ".join(f"{{'p': {d}}}" for d in inner) + ", {'q': 0}]"),))
     out += [(sk(2), "{1: 0}"), (sk(2), "{}"), (sk(2), "0"), (f"[{sk(2)}]", "[0]"), (sk(2), "{'k0': 0, 1: 0}"), ("{}", "{}"), ("{}",)]
     seen = set()
     res = []
@@ -450,7 +458,9 @@ def run(ctx: Ctx) -> Result:
             for k in KS:
                 eval_case(res, ms[i], k, mods)
             if ctx.tier == "thorough" or i % 5 == 0:
-                for k in KS + [None]:
+                # limits in a non-monotonic order: every CLI invocation must use the limit of ITS config, larger or
+                # smaller than the one before it in the same process
+                for k in [10, 0, 3, None, 1, 2]:
                     cli_stage(res, ms[i], k, str(ctx.tmp / f"c06_{si}.sqlite3"))
             if i % 401 == 0:
                 res.sample({"values": list(ms[i])})
